@@ -50,6 +50,9 @@ def run(ctx):
              "component are refused as schema-resource errors", floor=1)
     run.rule("C12.R7", "no load-phase mutator call on an object shared with "
              "the application schema", floor=8)
+    run.rule("C12.R10", "the section types the shipped logger component "
+             "documents as implementations of an abstract type declare "
+             "'implements' themselves (borrowed table of C20.R2)", floor=7)
     run.rule("C12.R9", "what a load re-binds on the loader (the private "
              "schema of a %import and its flag) the top-level load function "
              "puts back on every exit: the import extends the vocabulary of "
@@ -145,6 +148,36 @@ def run(ctx):
     # R7
     from rules import c13
     c13.check_sites(ctx, "C12.R7")
+
+    # R10: the implementers the library itself ships.  'implements' is not
+    # inherited (C11), so each documented implementer must say so itself in
+    # the component file; the table is the one C20.R2 reads off
+    # docs/logging-components.rst
+    import os
+    import xml.etree.ElementTree as ET
+    from rules.c20 import XML_IMPLEMENTS
+    d = os.path.join(m.pkgdir, "components", "logger")
+    impl = {}
+    for fn in sorted(os.listdir(d)) if os.path.isdir(d) else ():
+        if fn.endswith(".xml"):
+            try:
+                root = ET.parse(os.path.join(d, fn)).getroot()
+            except ET.ParseError as e:
+                raise AnalysisError("cannot parse %s: %s" % (fn, e))
+            for st in root.iter("sectiontype"):
+                if st.get("implements"):
+                    impl[st.get("name").lower()] = (
+                        fn, st.get("implements").lower())
+    for t, want in sorted(XML_IMPLEMENTS.items()):
+        got = impl.get(t, ("?", None))
+        run.check(got[1] == want, "C12.R10",
+                  "components/logger/%s <sectiontype %s>" % (got[0], t),
+                  "implements " + want,
+                  "declares the abstract type its documentation names",
+                  "<sectiontype %s> declares implements=%r, documented as an "
+                  "implementation of %s: a slot of that abstract type no "
+                  "longer admits it (implements is not inherited through "
+                  "extends)" % (t, got[1], want), nontrivial=False)
 
     # R8: what an import adds is visible to every lookup of the load
     from rules import stale
